@@ -281,6 +281,17 @@ def run(check, an: Analysis):
         check.instance('F', 'wrapper:%s:reports-once' % kind, ok, where_fn(wrapper.fn),
                        'parent.__child_finished__ called exactly once and the payload '
                        'closed', path=rules.path_lines(path))
+    check_task_close(check, an, 'F')
+    # ---- forced close, typestate -----------------------------------------------
+    n = _scope.check_forced_close(check, an, only_modules=('usim._', 'usim.__'))
+    check.instance('forced-close', 'sites-found', n >= 20, '', '%d functions can receive '
+                   'GeneratorExit at a suspension point' % n, nontrivial=False)
+    _scope.check_typestate(check, an)
+    check.stats.update(an.stats())
+
+
+def check_task_close(check, an: Analysis, rule: str):
+    """Task.__close__ finalises every unfinished task, started or not"""
     close = an.callee(TASK, '__close__')
     seen = set()
     for path in an.paths(close):
@@ -296,7 +307,7 @@ def run(check, an: Analysis):
         started_test = [e for i, e in enumerate(path.events) if e.kind == 'test'
                         and '__runner__' in rules.value_text(path, i, e.node)]
         if not started_test:
-            check.instance('F', '__close__:distinguishes-unstarted', False, where_fn(close.fn),
+            check.instance(rule, '__close__:distinguishes-unstarted', False, where_fn(close.fn),
                            '__close__ does not test whether the task has started',
                            path=rules.path_lines(path))
             continue
@@ -310,16 +321,10 @@ def run(check, an: Analysis):
             ok = len(closes) == 1 and not dones
             seen.add('started')
             what = 'a started task has its runner closed (the wrapper finalises it)'
-        check.instance('F', '__close__:%s' % ('unstarted' if not_started else 'started'),
+        check.instance(rule, '__close__:%s' % ('unstarted' if not_started else 'started'),
                        ok, where_fn(close.fn), what, path=rules.path_lines(path))
-    check.instance('F', '__close__:both-states', seen == {'unstarted', 'started'},
+    check.instance(rule, '__close__:both-states', seen == {'unstarted', 'started'},
                    where_fn(close.fn), '__close__ handles %s' % sorted(seen))
-    # ---- forced close, typestate -----------------------------------------------
-    n = _scope.check_forced_close(check, an, only_modules=('usim._', 'usim.__'))
-    check.instance('forced-close', 'sites-found', n >= 20, '', '%d functions can receive '
-                   'GeneratorExit at a suspension point' % n, nontrivial=False)
-    _scope.check_typestate(check, an)
-    check.stats.update(an.stats())
 
 
 def _schedules_runner(event, fn) -> bool:
